@@ -171,6 +171,40 @@ def check(repo: Repo, run: Run) -> None:
         gn = sn.get("gen", "").replace(sn.get("elem_fn", "not_equal"), "F")
         run.ob("C08.P3", f"{cname}.pairing", ge == gn and ge != "",
                f"{cname}: == folds over `{se.get('gen')}`, != over `{sn.get('gen')}`", ct.loc(ne))
+        # shortcut paths: a return that does not go through the fold may compare single elements only after both
+        # operands are known to have the same size (otherwise == and != stop being each other's negation)
+        from ..core.paths import PathWalker, flat_conds
+
+        for label, fn in (("__eq__", eq), ("__ne__", ne)):
+            params = [a.arg for a in fn.args.args]
+            try:
+                paths = [p for p in PathWalker(ct, ct.cls(cname)).paths(fn) if p.kind == "return" and p.value is not None]
+            except OverflowError:
+                continue
+            for i, p in enumerate(paths):
+                txt = ast.unparse(p.value)
+                if "reduce(" in txt:
+                    continue
+                sized = {}
+                same = False
+                for t, pol in flat_conds(p.conds):
+                    if pol and isinstance(t, ast.Compare) and len(t.ops) == 1 and isinstance(t.ops[0], ast.Eq):
+                        l, r = ast.unparse(strip_cast(t.left)), ast.unparse(strip_cast(t.comparators[0]))
+                        for a_, b_ in ((l, r), (r, l)):
+                            for prm in params:
+                                if a_ == f"len({prm})":
+                                    if b_.isdigit():
+                                        sized[prm] = int(b_)
+                                    elif b_ in (f"len({q})" for q in params if q != prm):
+                                        same = True
+                ok = same or (len(sized) == 2 and len(set(sized.values())) == 1)
+                if not any(prm in txt for prm in params):
+                    continue  # a constant / unrelated value (e.g. NotImplemented)
+                run.ob("C08.P3", f"{cname}.{label}|shortcut#{i}", ok,
+                       f"{cname}.{label} returns `{txt[:50]}` without folding over all elements, on the path `{p.cond_text()[:70]}`: "
+                       + ("both operands are known to have the same size there" if ok else
+                          "the path does not establish that both operands have the same number of elements, so the answer ignores the extra elements (== and != are no longer each other's negation)"),
+                       ct.loc(p.node) if p.node is not None else ct.loc(fn))
         # bool(result) returned, TypeError re-raised
         for label, fn in (("__eq__", eq), ("__ne__", ne)):
             rets = [ast.unparse(strip_cast(n.value)) for n in fn.body if isinstance(n, ast.Return) and n.value is not None]
